@@ -19,6 +19,8 @@ Lemma embed_SWhile names k scope c b : embed_stmt names k scope (SWhile c b) =
   NFor (Some (embed (vnames names scope) c)) None None (embed_stmts names k scope b).
 Proof. reflexivity. Qed.
 
+Lemma embed_SLoop names k scope b : embed_stmt names k scope (SLoop b) = NFor None None None (embed_stmts names k scope b).
+Proof. reflexivity. Qed.
 Lemma embed_SFor names k scope e c p b : embed_stmt names k scope (SFor e c p b) =
   NFor (Some (embed (vnames names (scope ++ [k])) c)) (Some (NVar (nth k names []) (embed (vnames names scope) e)))
        (Some (embed_stmt names (S k) (scope ++ [k]) p)) (embed_stmts names (S k) (scope ++ [k]) b).
@@ -33,6 +35,8 @@ Proof. reflexivity. Qed.
 Lemma wf_SWhile lp n c b : wf_stmt lp n (SWhile c b) = wf n c && wf_stmts true n b.
 Proof. reflexivity. Qed.
 
+Lemma wf_SLoop lp n b : wf_stmt lp n (SLoop b) = wf_stmts true n b.
+Proof. reflexivity. Qed.
 Lemma wf_SFor lp n e c p b : wf_stmt lp n (SFor e c p b) =
   wf n e && wf (S n) c && is_simple p && wf_stmt lp (S n) p && wf_stmts true (S n) b.
 Proof. reflexivity. Qed.
@@ -44,6 +48,8 @@ Proof. reflexivity. Qed.
 Lemma nd_SIf1 c t : nd (SIf1 c t) = ndecls t.
 Proof. reflexivity. Qed.
 Lemma nd_SWhile c b : nd (SWhile c b) = ndecls b.
+Proof. reflexivity. Qed.
+Lemma nd_SLoop b : nd (SLoop b) = ndecls b.
 Proof. reflexivity. Qed.
 Lemma nd_SFor e c p b : nd (SFor e c p b) = S (ndecls b).
 Proof. reflexivity. Qed.
@@ -62,6 +68,10 @@ Lemma sheight_SIf1 c b : sheight (SIf1 c b) = S (Nat.max (height c) (max_height 
 Proof. reflexivity. Qed.
 Lemma sheight_SWhile c b : sheight (SWhile c b) = S (Nat.max (height c) (max_height b)).
 Proof. reflexivity. Qed.
+Lemma sheight_SLoop b : sheight (SLoop b) = S (max_height b).
+Proof. reflexivity. Qed.
+Lemma sneed_SLoop b : sneed (SLoop b) = max_need b.
+Proof. reflexivity. Qed.
 Lemma sheight_SFor e c p b : sheight (SFor e c p b) = S (Nat.max (height e) (Nat.max (height c) (Nat.max (sheight p) (max_height b)))).
 Proof. reflexivity. Qed.
 Lemma sneed_SFor e c p b : sneed (SFor e c p b) = Nat.max (need e) (Nat.max (need c) (Nat.max (sneed p) (max_need b))).
@@ -78,10 +88,11 @@ Lemma max_need_pos l : 1 <= max_need l.
 Proof. induction l as [|s r IH]; [cbn; lia|rewrite max_need_cons; lia]. Qed.
 Lemma sneed_pos s : 1 <= sneed s.
 Proof.
-  destruct s as [e|i e|i o e|i up|e|c t e|c t|c b|e c p b| |]; try (cbn [sneed]; apply need_pos); try (cbn [sneed]; lia).
+  destruct s as [e|i e|i o e|i up|e|c t e|c t|c b|b|e c p b| |]; try (cbn [sneed]; apply need_pos); try (cbn [sneed]; lia).
   - rewrite sneed_SIf. pose proof (need_pos c). lia.
   - rewrite sneed_SIf1. pose proof (need_pos c). lia.
   - rewrite sneed_SWhile. pose proof (need_pos c). lia.
+  - rewrite sneed_SLoop. apply max_need_pos.
   - rewrite sneed_SFor. pose proof (need_pos c). lia.
 Qed.
 
@@ -121,6 +132,13 @@ Lemma run_SWhile n rho c b : run_stmt (S n) rho (SWhile c b) =
   end.
 Proof. reflexivity. Qed.
 
+Lemma run_SLoop n rho b : run_stmt (S n) rho (SLoop b) =
+  match run_blk n rho b with
+  | Some (inl (rho', _)) | Some (inr (StCont rho')) => run_stmt n rho' (SLoop b)
+  | Some (inr (StBrk rho')) => Some (inl (rho', VNil))
+  | other => other
+  end.
+Proof. reflexivity. Qed.
 Lemma run_SFor n rho e c p b : run_stmt (S n) rho (SFor e c p b) =
   match sev rho e with
   | inl v => option_map (trunc (length rho)) (loop3 (run_stmt n) c p b n (rho ++ [v]))
@@ -176,6 +194,12 @@ Lemma code_SWhile k scope base c b : stmt_code k scope base (SWhile c b) =
   (patch 0 (jb + 2) jb inner ++ I [opJumpBackward; jb; opNop], kc ++ kb).
 Proof. reflexivity. Qed.
 
+Lemma code_SLoop k scope base b : stmt_code k scope base (SLoop b) =
+  let '(cb, kb) := block_code k scope base b in
+  let inner := cb ++ I [opPopTop] in
+  let jb := nlen inner in
+  (patch 0 (jb + 2) jb inner ++ I [opJumpBackward; jb; opNop], kb).
+Proof. reflexivity. Qed.
 Lemma code_SFor k scope base e c p b : stmt_code k scope base (SFor e c p b) =
   let '(ci, ki) := cexp_at (slot_of scope) base e in
   let sc1 := scope ++ [k] in
@@ -258,7 +282,7 @@ Definition same_len (rho : list sval) (r : (list sval * sval) + stop) : Prop :=
 Lemma simple_res n rho p r : is_simple p = true -> run_stmt n rho p = Some r -> same_len rho r.
 Proof.
   intros Hs Hr. destruct n as [|n]; [discriminate|].
-  destruct p as [e|i e|i o e|i up|e|c t e|c t|c b|e c p b| |]; try discriminate; cbn [run_stmt] in Hr.
+  destruct p as [e|i e|i o e|i up|e|c t e|c t|c b|b|e c p b| |]; try discriminate; cbn [run_stmt] in Hr.
   - destruct (sev rho e); inversion Hr; cbn [same_len]; [split; [apply set_nth_length|reflexivity]|exact Logic.I].
   - destruct (sev rho e); [|inversion Hr; exact Logic.I].
     destruct (sbin o (nth i rho VNil) s); inversion Hr; cbn [same_len]; [split; [apply set_nth_length|reflexivity]|exact Logic.I].
@@ -318,9 +342,19 @@ Qed.
 Lemma run_stmt_length : forall n, length_ok n.
 Proof.
   induction n as [|n IH]; intros rho s r Hr; [discriminate|].
-  destruct s as [e|i e|i o e|i up|e|c t e|c t|c b|e c p b| |].
+  destruct s as [e|i e|i o e|i up|e|c t e|c t|c b|b|e c p b| |].
+  12:{ cbn [run_stmt] in Hr. inversion Hr. reflexivity. }
   11:{ cbn [run_stmt] in Hr. inversion Hr. reflexivity. }
-  10:{ cbn [run_stmt] in Hr. inversion Hr. reflexivity. }
+  9:{ rewrite run_SLoop in Hr.
+      destruct (run_blk n rho b) as [[[rho1 v1]|[x|rho1|rho1]]|] eqn:E; try discriminate.
+      + pose proof (run_blk_length n IH b rho _ E) as Hl. cbn [lenb_ok] in Hl.
+        pose proof (IH rho1 (SLoop b) r Hr) as H2.
+        destruct r as [[rho2 v2]|[x|rho2|rho2]]; cbn [len_ok next_n] in *; congruence.
+      + inversion Hr; exact Logic.I.
+      + pose proof (run_blk_length n IH b rho _ E) as Hl. cbn [lenb_ok] in Hl. inversion Hr; subst r. exact Hl.
+      + pose proof (run_blk_length n IH b rho _ E) as Hl. cbn [lenb_ok] in Hl.
+        pose proof (IH rho1 (SLoop b) r Hr) as H2.
+        destruct r as [[rho2 v2]|[x|rho2|rho2]]; cbn [len_ok next_n] in *; congruence. }
   9:{ rewrite run_SFor in Hr. destruct (sev rho e) as [v|x]; [|inversion Hr; exact Logic.I].
       destruct (loop3 (run_stmt n) c p b n (rho ++ [v])) as [r0|] eqn:E; [|discriminate]. cbn [option_map] in Hr. inversion Hr; subst r.
       pose proof (loop3_len n c p b IH n (rho ++ [v]) r0 E) as Hl. rewrite ?app_length in Hl.
@@ -362,7 +396,12 @@ Proof. apply run_blk_length. apply run_stmt_length. Qed.
 Lemma run_stmt_value : forall n rho s rho' v, run_stmt n rho s = Some (inl (rho', v)) -> is_expr_stmt s = false -> v = VNil.
 Proof.
   induction n as [|n IH]; intros rho s rho' v Hr Hx; [discriminate|].
-  destruct s as [e|i e|i o e|i up|e|c t e|c t|c b|e c p b| |]; try discriminate.
+  destruct s as [e|i e|i o e|i up|e|c t e|c t|c b|b|e c p b| |]; try discriminate.
+  6:{ rewrite run_SLoop in Hr.
+      destruct (run_blk n rho b) as [[[rho1 v1]|[x|rho1|rho1]]|]; try discriminate.
+      + exact (IH rho1 (SLoop b) rho' v Hr eq_refl).
+      + inversion Hr. reflexivity.
+      + exact (IH rho1 (SLoop b) rho' v Hr eq_refl). }
   6:{ (* the value of a three-clause loop: that of its last round *)
       rewrite run_SFor in Hr. destruct (sev rho e) as [v0|x]; [|discriminate].
       destruct (loop3 (run_stmt n) c p b n (rho ++ [v0])) as [r0|] eqn:E; [|discriminate]. cbn [option_map] in Hr.
@@ -408,7 +447,13 @@ Proof.
   assert (Hblk : forall l rho0 r0 k0, wf_stmts false k0 l = true -> run_blk n rho0 l = Some r0 -> no_ctl r0).
   { intros l rho0 r0 k0 Hw H0. unfold run_blk in H0. destruct (run_stmts n rho0 l VNil) as [r1|] eqn:E; [|discriminate].
     cbn in H0. inversion H0; subst r0. apply no_ctl_trunc. exact (Hlist l rho0 VNil r1 k0 Hw E). }
-  destruct s as [e|i e|i o e|i up|e|c t e|c t|c b|e c p b| |].
+  destruct s as [e|i e|i o e|i up|e|c t e|c t|c b|b|e c p b| |].
+  9:{ rewrite wf_SLoop in Hwf. rewrite run_SLoop in Hr.
+      destruct (run_blk n rho b) as [[[rho1 v1]|[x|rho1|rho1]]|] eqn:E; try discriminate.
+      + apply (IH rho1 (SLoop b) r k); [rewrite wf_SLoop; exact Hwf|exact Hr].
+      + inversion Hr; exact Logic.I.
+      + inversion Hr; exact Logic.I.
+      + apply (IH rho1 (SLoop b) r k); [rewrite wf_SLoop; exact Hwf|exact Hr]. }
   9:{ rewrite wf_SFor in Hwf. repeat (apply andb_true_iff in Hwf; destruct Hwf as [Hwf ?]).
       rewrite run_SFor in Hr. destruct (sev rho e) as [v0|x]; [|inversion Hr; exact Logic.I].
       destruct (loop3 (run_stmt n) c p b n (rho ++ [v0])) as [r0|] eqn:E; [|discriminate]. cbn [option_map] in Hr. inversion Hr; subst r.
